@@ -294,6 +294,7 @@ func (node *Node) String() string {
 
 // clone creates a shallow copy of a node with its hash set to nil.
 func (node *Node) clone(tree *MutableTree) (*Node, error) {
+	verifYield("node.clone")
 	if node.isLeaf() {
 		return nil, ErrCloneLeafNode
 	}
@@ -663,6 +664,7 @@ func (node *Node) writeBytes(w io.Writer) error {
 }
 
 func (node *Node) getLeftNode(t *ImmutableTree) (*Node, error) {
+	verifYield("node.getLeftNode")
 	if node.leftNode != nil {
 		return node.leftNode, nil
 	}
@@ -674,6 +676,7 @@ func (node *Node) getLeftNode(t *ImmutableTree) (*Node, error) {
 }
 
 func (node *Node) getRightNode(t *ImmutableTree) (*Node, error) {
+	verifYield("node.getRightNode")
 	if node.rightNode != nil {
 		return node.rightNode, nil
 	}
